@@ -184,9 +184,27 @@ def run_table_case(case):
     text = build.pdb_text(atoms)
     seen = set()
     totals = {}
-    for pka in PKAS:
-        for ph in PHS:
+    first, last = info[0], [i for i in info if i["kind"] == "aa"][-1]
+    lattice = [(pka, ph, None) for pka in PKAS for ph in PHS]
+    if case.get("termrows"):
+        # PROPKA also reports the chain termini, under the terminal residue's
+        # own name, number and chain: rows N+ (listed first) and C- (listed
+        # last) accompany the side-chain row, with a pKa on the other side of
+        # the pH than the side chain's (thorough: both sides)
+        lattice = []
+        for pka in PKAS:
+            for ph in PHS:
+                sides = (-1.0, 15.0) if case["termrows"] == "both" else (
+                    (-1.0,) if ph < pka else (15.0,))
+                lattice += [(pka, ph, t) for t in sides]
+    for pka, ph, tpka in lattice:
+        if True:
             rows = propka_rows(tinfo, group, pka)
+            if tpka is not None:
+                rows = (propka_rows(first, "N+", tpka) + rows
+                        + propka_rows(last, "C-", tpka))
+                if case.get("row_order") == "reversed":
+                    rows.reverse()
             opts = [f"--ff={ff}", "--titration-state-method=propka",
                     f"--with-ph={ph}", "--keep-chain"] + list(
                         case.get("opts", []))
@@ -217,9 +235,11 @@ def run_table_case(case):
             res["evals"] += 1
             side = "pH<pKa" if ph < pka else ("pH==pKa" if ph == pka else "pH>pKa")
             cell = f"C06/{driver}/{ff}/{group}@{pos}"
-            if case.get("opts") or case.get("asym"):
-                cell += "[" + "+".join(list(case.get("opts", []))
-                                       + (["asym"] if case.get("asym") else [])) + "]"
+            if case.get("opts") or case.get("asym") or case.get("termrows"):
+                cell += "[" + "+".join(
+                    list(case.get("opts", []))
+                    + (["asym"] if case.get("asym") else [])
+                    + (["terminus-rows"] if case.get("termrows") else [])) + "]"
             if not r.ok:
                 sig = f"{cell}/{side}/run-fails:{r.exc[0]}"
                 if sig not in seen:
@@ -256,7 +276,8 @@ def run_table_case(case):
                         "case": dict(case, only=[ph, pka])})
             total = sum(a.ffcharge for a in r.bm.atoms
                         if a.ffcharge is not None and id(a) not in missed)
-            totals.setdefault(pka, []).append((ph, round(total, 3)))
+            if tpka is None:
+                totals.setdefault(pka, []).append((ph, round(total, 3)))
     # total charge never increases with pH for a fixed pKa table
     for pka, seq in totals.items():
         seq.sort()
@@ -511,6 +532,20 @@ def enumerate_cases(tier, seed):
                               "opts": ["--noopt"]})
                 cases.append({"mode": "table", "driver": "main", "ff": ff,
                               "group": g, "pos": pos, "x": g, "asym": True})
+    # side-chain rows accompanied by the terminus rows of the same residue
+    for ff in corpus.FFS:
+        for g in HEPTA:
+            for pos in ("n", "c"):
+                if tier == "quick":
+                    cases.append({"mode": "table", "driver": "main", "ff": ff,
+                                  "group": g, "pos": pos, "x": g,
+                                  "termrows": "opposite"})
+                else:
+                    for order in ("propka", "reversed"):
+                        cases.append({"mode": "table", "driver": "main",
+                                      "ff": ff, "group": g, "pos": pos,
+                                      "x": g, "termrows": "both",
+                                      "row_order": order})
     if tier == "thorough":
         for f in ("1AJJ.pdb", "1BX8.pdb", "cterm_hid.pdb", "1A1P.pdb"):
             for ff in corpus.FFS:
